@@ -40,10 +40,11 @@ def transport(t):
 
 def encode_decode(t: int, c_kind: int, typ_kind: int, typ: str, extra_hdr: bool, n: int, s: str, c2: bool, keyset: bool, pick: int) -> bool:
     """
-    PRE: 0 <= t <= 3 and 0 <= typ_kind <= 2 and len(typ) == 0 and 0 <= c_kind < NK and -2 <= n <= 2 and len(s) <= 1 and 0 <= pick <= 1
+    PRE: 0 <= t <= 3 and 0 <= typ_kind <= 2 and len(typ) == 0 and 0 <= c_kind < NK and -2 <= n <= 2 and len(s) <= 1 and 0 <= pick <= 2
     PRE: keyset or pick == 0
     POST: _
     """
+    # pick == 2: the key set holds a single key (its kid must still be recorded in the header)
     rt.tick()
     base, key, ks, reg = transport(t)
     header = dict(base)
@@ -59,11 +60,20 @@ def encode_decode(t: int, c_kind: int, typ_kind: int, typ: str, extra_hdr: bool,
     given_header, given_claims = ice.jcopy(header), ice.jcopy(claims)
     env = ice.Env(False)
     env.ecdsa_rs = (11, 13)
+    if keyset and pick == 2:
+        ks = KeySet([key])
     k = ks if keyset else key
     with env.installed(patches() + [(random, "choice", lambda seq: seq[pick % len(seq)])]):
         try:
             tok = jwt.encode(header, claims, k, registry=reg)
             out = jwt.decode(tok, k, registry=reg)
+            # what a caller does with the returned claims must not show up in a later decode of the same token
+            first = ice.jcopy(out.claims)
+            out.claims["injected"] = True
+            out2 = jwt.decode(tok, k, registry=reg)
+            if out2.claims != first or out2.claims is out.claims:
+                return False
+            del out.claims["injected"]
         except ice.HarnessError:
             raise
         except Exception:  # noqa
@@ -184,7 +194,7 @@ def replay(func, call):
         t, c_kind, typ_kind, typ, extra_hdr, n, s, c2, keyset, pick = args
         kind, base, reg = REAL[t]
         j1, j2 = dict(R.test_key(kind), kid="k1"), dict(R._ephemeral(kind) if kind in R.CURVES else {"kty": "oct", "k": R.b64e(b"z" * (16 if t == 2 else 32))}, kid="k2")
-        k = KeySet([JWKRegistry.import_key(j1), JWKRegistry.import_key(j2)]) if keyset else JWKRegistry.import_key(j1)
+        k = KeySet([JWKRegistry.import_key(j1)] + ([] if pick == 2 else [JWKRegistry.import_key(j2)])) if keyset else JWKRegistry.import_key(j1)
         header = dict(base)
         if typ_kind == 1:
             header["typ"] = "at+jwt" + typ
@@ -201,11 +211,18 @@ def replay(func, call):
         try:
             tok = jwt.encode(header, claims, k, registry=reg)
             out = jwt.decode(tok, k, registry=reg)
+            first = json.loads(json.dumps(out.claims))
+            out.claims["injected"] = True
+            out2 = jwt.decode(tok, k, registry=reg)
+            later = None if out2.claims == first else "a second decode of the same token returns %r after the caller changed the first result" % (out2.claims,)
+            del out.claims["injected"]
         except Exception as e:  # noqa
             return {"violated": True, "key": "c09-roundtrip", "detail": "encode/decode failed: %s %s (header=%r claims=%r)" % (type(e).__name__, e, gh, gc)}
         finally:
             random.choice = oc
-        probs = []
+        probs = [later] if later else []
+        if keyset and out.header.get("kid") not in ("k1", "k2"):
+            probs.append("the kid of the key picked from the key set is not in the decoded header %r" % (out.header,))
         if header != gh:
             probs.append("caller's header altered: %r -> %r" % (gh, header))
         got = {a: b for a, b in out.header.items() if a not in ("kid", "epk")}
